@@ -11,6 +11,9 @@ CHECKS = {
  "C19": dict(technique="runtime monitoring: taint-style marker monitor — unique marker strings at every string leaf of rejected values, substring search over every reachable SchemaError.Reason and over Error() with details disabled / reason-only customiser",
    text="Every rejected (schema, marked value) execution has all reachable SchemaErrors (MultiError members, Origin/Unwrap chains, oneOf sub-errors) walked; a marker inside any Reason, inside Error() under SchemaErrorDetailsDisabled (odd shards, own process) or inside a reason-only customised message is a violation. Held on the executions in evidence; every SchemaField has a floor of inspected reasons.",
    note="Object keys are not value strings; custom format validators registered by the harness do not quote input; request-level reason-only messages are additionally exercised by the openapi3filter checks once built.", ref="4 C19"),
+ "C05": dict(technique="runtime monitoring: reference-model oracle (independent OAS style serializer as the inverse, reference schema evaluator for the verdict) observing the decode hook and ValidateParameter on routed requests",
+   text="For every legal (in, style, explode) cell incl. omitted defaults x shape x value x presence x required-ness, with and without unrelated neighbouring parameters and for several parameter names, the request is built by an independent serializer, routed by the real router, decoded through the verif hook (must equal the serialised value) and validated (verdict must equal the reference: schema verdict, missing-required, absent-optional, wrong-lexical-class => ParseError, structural garbage => rejected). Held on the executions in evidence.",
+   note="Trusts gen/style.go as a reading of the OAS 3.0.3 style table and internal/refeval; values with the cell's own delimiters, empty strings and empty arrays are excluded (undefined serialisation); lenient numeric/boolean spellings are not judged. Uses the verif hook VerifDecodeStyledParameter.", ref="4 C05"),
 }
 NOT_YET = {}
 def main():
